@@ -357,6 +357,7 @@ func checkC08(P *Program, r *Result, tier string) {
 		r.fatal("expected 5 dispatch functions, found %d", nd)
 	}
 	r.Extra["contracts"] = run.contractSummary()
+	beLoadRule(P, r, "NEG32")
 	r.assume("bufiox.Reader.Next/Peek and SkipDecoderIface.SkipN return exactly n bytes when err == nil (interface contract; the implementations are C02/C04's subject)")
 	r.assume("int is 64 bits; lengths ≤ 2^48; addresses < 2^56")
 	// ---------- ERR-USED: no error of a consuming call is dropped or overwritten unexamined ----------
@@ -712,6 +713,9 @@ func depthRules(P *Program, r *Result, A *Analysis, scope []*ssa.Function) int {
 	}
 	recs := 0
 	for _, fn := range scope {
+		if isGenericOrigin(fn) {
+			continue // the template as written never runs; its instances are in the scope
+		}
 		fromFn := reach(fn)
 		if !fromFn[fn] {
 			continue // not on a cycle
@@ -870,9 +874,13 @@ func depthRules(P *Program, r *Result, A *Analysis, scope []*ssa.Function) int {
 			if scc[caller] {
 				continue
 			}
+			// the body of a generic function as written is never run, its instances are (and are looked at here)
+			if isGenericOrigin(caller) {
+				continue
+			}
 			for _, c := range callsIn(caller) {
 				g := c.Common().StaticCallee()
-				if !scc[g] {
+				if !scc[g] || isGenericOrigin(g) {
 					continue
 				}
 				ext++
@@ -949,4 +957,15 @@ func onCallCycle(fn *ssa.Function) bool {
 		return false
 	}
 	return walk(fn)
+}
+
+// isGenericOrigin: fn is the body of a generic function or of a method of a generic type as written (not an instance).
+func isGenericOrigin(fn *ssa.Function) bool {
+	if fn == nil || len(fn.TypeArgs()) > 0 {
+		return false
+	}
+	if fn.TypeParams().Len() > 0 {
+		return true
+	}
+	return fn.Signature != nil && fn.Signature.RecvTypeParams().Len() > 0
 }
